@@ -30,7 +30,13 @@ MANIFEST = dict(
           "reference_spelling_irrelevant, nesting_preserved, attributes_preserved, special_strings_preserved; stream 'writer' ties both ends: "
           "recorded tokenizer callbacks of the written text = emit for the choices the writer took, real parse = normalise, and the "
           "excluded points (void element with a child, numeric reference to 128-159, over-long decimal digit string, unknown name) are run "
-          "on the real code, where the conclusion must fail."),
+          "on the real code, where the conclusion must fail. From the TEXT: parse_of_written_document - for every Writable document "
+          "(Model/WriterText.lean: writeText gives the markup; names [a-z][-.:_a-z0-9]*, no script/style, literal characters not & or <, "
+          "hazard-free comments/CDATA/doctype/declarations/PIs) the Lean tokenizer run on writeText makes exactly emit's callbacks up to data "
+          "chunking (callbacks_of_written_document), every start tag at the line/column of its '<' (derivedPos), hence adapter + machine "
+          "yield normalise; html.unescape and str.lower are the only parameters (ParamsOK). Stream written-text: Lean writeText = the Python "
+          "writer's plain-mode text, Writable holds, derivedPos = the writer's offsets, recorder = Lean tokenizer = emit on those texts, "
+          "ParamsOK sampled against the real functions."),
     design="7/C04",
     note=("CPython's tokenizer is outside the repository: it is modelled in Lean and tied to the real one by exact equality of the callback "
           "streams on every text of the run (html.unescape, str.lower and the HTML5 entity table are parameters answered by the real "
@@ -941,6 +947,9 @@ def run(ctx: Ctx):
     # Props/TK.lean) computes from the text - on every text of every stream above, rejected ones included
     from . import tk
     tk.stream(ctx, list(tk_texts), name="tokenizer-model", drv=drv)
+    # parse_of_written_document: Lean writeText = the Python writer's plain text, Writable holds, derivedPos = the writer's offsets,
+    # recorder(text) = Lean tokenizer(text) = emit (up to data chunking), ParamsOK for the real str.lower / html.unescape
+    tk.written_stream(ctx, drv)
     # (5) the whole-document theorem: recorder = emit, real parse = normalise, for the writer's actual choices
     writer_stream(ctx, drv)
     B = 20000
